@@ -102,6 +102,35 @@ Proof.
     cbn [map zip3 rsum fold_right] in *. unfold rsum in *. unfold lognormal_term at 1. lra.
 Qed.
 
+(* ---------- magnitude: multiplying every length (mean, std, x) by c > 0 shifts the log-density by - n ln c;
+   in particular the value is finite for every c > 0, however small or large ---------- *)
+Lemma normal_term_scale c m s t : 0 < c -> 0 < s -> normal_term (c * m, c * s, c * t) = normal_term (m, s, t) - ln c.
+Proof.
+  intros Hc Hs. unfold normal_term. pose proof sqrt_2PI_pos.
+  replace ((c * t - c * m) / (c * s)) with ((t - m) / s) by (field; lra).
+  replace (c * s * sqrt (2 * PI)) with (c * (s * sqrt (2 * PI))) by ring.
+  rewrite (ln_mult c) by (try apply Rmult_lt_0_compat; lra). lra.
+Qed.
+
+Theorem normal_logpdf_scale c mean std x : 0 < c -> Forall (fun s => 0 < s) std ->
+  (length mean = 1%nat \/ length mean = length x) -> (length std = 1%nat \/ length std = length x) ->
+  normal_logpdf (map (Rmult c) mean) (map (Rmult c) std) (map (Rmult c) x) = normal_logpdf mean std x - INR (length x) * ln c.
+Proof.
+  intros Hc Hs Hm Hsd. unfold normal_logpdf, normal_args. rewrite map_length, !bc_map, zip3_map3, map_map.
+  pose proof (zip3_Forall2 (fun s => 0 < s) (bc (length x) mean) (bc (length x) std) x (bc_Forall _ _ _ Hs)) as H.
+  pose proof (args3_length mean std x Hm Hsd) as Hlen.
+  set (L := zip3 (bc (length x) mean) (bc (length x) std) x) in *.
+  rewrite <- Hlen. clearbody L. clear Hlen.
+  induction H as [|[[m s] t] L Hp _ IH]; cbn [map rsum fold_right length].
+  - cbn. lra.
+  - cbn [fst snd] in Hp. rewrite normal_term_scale by assumption. rewrite S_INR. unfold rsum in *. rewrite IH. lra.
+Qed.
+
+(* canonical Gaussian form: scaling all standard deviations by c adds 2 n ln c to logdet and leaves the quadratic form *)
+Theorem gauss_canon_scale n logdet quad c :
+  gauss_canon n (logdet + 2 * INR n * ln c) quad = gauss_canon n logdet quad - INR n * ln c.
+Proof. unfold gauss_canon. lra. Qed.
+
 (* ---------- supports: where the code returns -infinity (decisions over the exact float values, Q) ---------- *)
 Local Open Scope Q_scope.
 
